@@ -12,7 +12,7 @@ TABLES = [(5, CB32), (6, CB64), (6, CB64U), (7, CB128)]
 
 SRV = vlib.tu_harness(['hmain.c', 'h_srvhist.c', 'wire_net.c', 'wire_srv.c', 'wire_cli.c'], 'server',
                       ['sendto', 'recvfrom', 'recv', 'recvmsg', 'time', 'write_tun', 'read_tun', 'system', 'rand', 'sleep',
-                       'compress2', 'uncompress', 'login_calculate'])
+                       'compress2', 'uncompress', 'login_calculate', 'select'])
 SRV['repo'] = vlib.COMMON_SRCS + ['user.c', 'fw_query.c', 'util.c']
 
 
@@ -506,3 +506,59 @@ def gen_histories(seed, n, nevents, tag='srv'):
         for k, v in g.stats.items():
             stats[k] = stats.get(k, 0) + v
     return out, stats
+
+
+def to_loop_history(h, rng):
+    """turns an H history (handlers called one by one) into an L history for the REAL select loop tunnel(): same events, one per
+    select() call, some adjacent datagram / tun-packet pairs merged into a 'both readable' iteration"""
+    evs = h.split(' ; ')
+    head = 'L' + evs[0][1:]
+    out = []
+    i = 1
+    while i < len(evs):
+        a = evs[i].split()
+        if i + 1 < len(evs) and rng.random() < 0.2:
+            b = evs[i + 1].split()
+            if a and b and {a[0], b[0]} == {'X', 'T'}:
+                x, t = (a, b) if a[0] == 'X' else (b, a)
+                out.append('B %s %s %s %s %s %s' % (x[1], x[2], x[3], x[4], x[5], t[2]))
+                i += 2
+                continue
+        out.append(evs[i])
+        i += 1
+    # the real loop runs its final sweep once more when the script ends: close every history with a timeout iteration, after
+    # which nothing is left to send (otherwise that sweep would emit answers outside the compared output)
+    last_now = out[-1].split()[1] if out else '0'
+    out.append('S %s' % last_now)
+    return head + ' ; ' + ' ; '.join(out)
+
+
+def loop_glue(rep, ctx, exe, n, tag):
+    """correspondence of the server select-loop model (ServerLoop.siter: clear loop with the loop-top clock, tun read only when
+    some session can take a packet, tun before DNS, final sweep) with the REAL tunnel() loop of iodined.c driven through a
+    scripted select(): L lines of harness/h_srvhist.c"""
+    ok, model, lg = vlib.build_model_driver('SRV')
+    if not ok:
+        ctx.broken.append(('extraction', 'server model driver does not build: ' + lg[-300:]))
+        return
+    hs, st = gen_histories(rep.seed, n, 100, tag=tag)
+    rng = vlib.rng_for(rep.seed, tag + '-merge')
+    ls = [to_loop_history(h, rng) for h in hs]
+    rc, impl, err = vlib.parallel_run_cases(exe, ls, ctx.work, 'sloop-impl')
+    rc2, mod, err2 = vlib.parallel_run_cases(model, ls, ctx.work, 'sloop-model')
+    if rc != 0:
+        ctx.broken.append(('impl-crash', 'server loop harness exited with %d: %s' % (rc, err[-300:])))
+    okc = 0
+    for h, a, b in zip(ls, impl, mod):
+        if a == b:
+            okc += 1
+            continue
+        ea, eb = a.split(' ; '), b.split(' ; ')
+        k = next((j for j, (x, y) in enumerate(zip(ea, eb)) if x != y), min(len(ea), len(eb)))
+        evs = h.split(' ; ')
+        ctx.broken.append(('correspondence', 'server select-loop model (ServerLoop.siter) and the real tunnel() disagree at iteration %d (event %r) of %r: impl=%r model=%r' % (
+            k, evs[k + 1][:80] if k + 1 < len(evs) else '', ' ; '.join(evs[:k + 2])[-3000:], ea[k][:300] if k < len(ea) else '', eb[k][:300] if k < len(eb) else '')))
+        break
+    rep.cov['server_loop_histories_validated'] = okc
+    rep.cov['server_loop_both_ready_iterations'] = sum(l.count(' ; B ') for l in ls)
+    rep.cov['evaluations'] = rep.cov.get('evaluations', 0) + sum(l.count(' ; ') for l in ls)
